@@ -263,6 +263,9 @@ def has_zero_duty_zone(case):
         d[s["zone"]] = d.get(s["zone"], 0.0) + eff(s)
     if min(d.values()) == 0.0:
         return True
+    if "zone_tree" in case and not (case["zone_tree"].get("children") or []) \
+            and any(s["zone"] == case["zone_tree"]["name"] and eff(s) == 0.0 for s in case["streams"]):
+        return True              # root-only user tree: a stream labelled with the root becomes a zone of its own (with a DI record)
     if "zone_tree" in case:      # a zone declared in the user tree that no stream is assigned to
 
         def names(t):
